@@ -20,7 +20,25 @@ import H3.Model.Datagram
       writes `*`.
 
     Tasks run their commands one after the other; a command that has to wait (for data, for write
-    credit, for a datagram) blocks its task, later commands of the task queue behind it. -/
+    credit, for a datagram) blocks its task, later commands of the task queue behind it.
+
+    **Accepting incoming streams.**  The model half keeps `pending_recv_streams` and the `Vec`
+    `wt_uni_streams` (`H3.Session.Accepted`): every `poll_accept_recv` (in `accept_uni`, in the first
+    phase of `accept_bi`, in `accept`) resolves the pending uni streams in the order they were
+    opened and pushes the WebTransport ones; `accept_uni` pops the entry pushed LAST.  The property
+    has no opinion on the ORDER in which buffered streams are surfaced, so the specification is a
+    predicate over the observed answers: engine `wtj <role> <cfg> <ops> @@ <observed tokens>` (the
+    judge) interprets the line once more, lets every `accept_uni` surface the stream the
+    implementation says it surfaced — provided that stream is a peer-opened WebTransport uni stream
+    with a complete header that has not been surfaced before — and demands of it the session id ITS
+    header carries (RFC 9000 parser over the stream's own bytes) and, in the reads that follow, ITS
+    OWN payload; the verdict (`ok` / `BAD@<position>:<expected>`) is prefixed to the implementation's
+    tokens by the projection.  Engine `wt` prints the verdict on the model's own answers, the model
+    tokens, and `## ok **`.  A stream that ends inside its header has no session id and no payload:
+    a uni stream is then never surfaced (the accept goes on waiting for another one), `accept_bi`
+    must answer an error or `None` but never a stream; after `accept_bi` / `accept_uni` has answered a
+    connection error every later accept answers an error; whether and with which code the
+    connection is closed then is C04's / C06's subject (the `closed=[…]` token may be absent). -/
 namespace H3.Drv.C19
 open H3.Drv H3.Session
 open H3.FS (Ev)
@@ -70,6 +88,11 @@ inductive Job where
   | dgr
   /-- `accept_uni` with the extension off -/
   | forever (op : String)
+  /-- `accept_uni().await`: polled again whenever the transport has something new -/
+  | au
+  /-- `accept_bi().await`: first `poll_accept_request_stream` (which also runs `poll_accept_recv`)
+      until the transport hands over a bidi stream, then `poll_next` on that stream (`hold`) -/
+  | ab (hold : Option Nat)
 
 def Job.op : Job → String
   | .wbuf op .. => op
@@ -78,6 +101,8 @@ def Job.op : Job → String
   | .readAll .. => "ra"
   | .dgr => "dgr"
   | .forever op => op
+  | .au => "au"
+  | .ab _ => "ab"
 
 structure St where
   wtEnabled : Bool
@@ -89,17 +114,25 @@ structure St where
   nextUni : Nat := 15
   peers : List Peer := []
   sends : List Send := []
-  pendingUni : List Nat := []
+  /-- `pending_recv_streams`: peer uni streams whose header is not complete yet, in the order opened -/
+  uniPending : List Nat := []
+  /-- `accepted_streams.wt_uni_streams` -/
+  wtStack : List WtUni := []
   pendingBidi : List Nat := []
+  /-- judge mode: the streams the implementation's `accept_uni` calls surfaced, in order -/
+  choices : Option (List Nat) := none
   out : List String := []
-  spec : List String := []
+  /-- per position the acceptable tokens (`*` = any run of characters; `?absent` = the token may be missing) -/
+  spec : List (List String) := []
   blocked : List (String × Job) := []
   queue : List (String × String) := []
   dgRx : List (List Nat) := []
   dgTx : List (List Nat) := []
   dgTxSpec : List (List Nat) := []
-  dgErr : Bool := false
-  closed : Bool := false
+  /-- the first connection error h3 raised itself: name and code (sticky) -/
+  localErr : Option (String × Nat) := none
+  /-- the code the connection was closed with (at the first accept after `localErr` was set) -/
+  closed : Option Nat := none
   /-- the peer closed the connection / it timed out (as `render_conn_err` prints it) -/
   connErr : Option String := none
   /-- the stream tasks that exist (`w<id>` once the stream is opened / accepted, `w<id>s` after `sp`) -/
@@ -118,8 +151,10 @@ def parseHeader (bs : List Nat) : Option (Nat × Nat × List Nat) :=
     | none => none
   | none => none
 
-def St.log (st : St) (m s : String) : St := { st with out := st.out ++ [m], spec := st.spec ++ [s] }
+def St.log (st : St) (m s : String) : St := { st with out := st.out ++ [m], spec := st.spec ++ [[s]] }
 def St.log1 (st : St) (m : String) : St := st.log m m
+def St.logAlt (st : St) (m : String) (alts : List String) : St :=
+  { st with out := st.out ++ [m], spec := st.spec ++ [alts] }
 
 def getPeer (st : St) (id : Nat) : Option Peer := st.peers.find? (·.id == id)
 def updPeer (st : St) (id : Nat) (f : Peer → Peer) : St :=
@@ -178,12 +213,110 @@ def endText : Option (Option Nat) → String
   | some (some c) => s!"err:rterm:{c}"
   | none => "open"
 
+def newSend (st : St) (id : Nat) (shown : Bool) : St :=
+  if (getSend st id).isSome then st
+  else { st with sends := st.sends ++ [{ id := id, credit := st.wc, sCredit := st.wc, shown := shown }] }
+
 def block (st : St) (task : String) (j : Job) : St := { st with blocked := st.blocked ++ [(task, j)] }
+
+/-- one `poll_accept_recv` as far as the peer's WebTransport uni streams are concerned
+    (`H3.Session.Accepted.pass` over the events delivered so far) -/
+def pollRecv (st : St) : St :=
+  let pend := st.uniPending.filterMap (fun u => (getPeer st u).map (fun p => ({ stream := u, evs := p.evs } : UniIn)))
+  let a := Accepted.pass st.wtEnabled { pending := pend, wt := st.wtStack }
+  { st with uniPending := a.pending.map (·.stream), wtStack := a.wt }
+
+/-- h3 raises a connection error itself: the first one sticks -/
+def St.raise (st : St) (name : String) (code : Nat) : St :=
+  { st with localErr := some (st.localErr.getD (name, code)) }
+
+/-- the next accept after a local connection error closes the connection with its code -/
+def St.closeWith (st : St) (code : Nat) : St := { st with closed := some (st.closed.getD code) }
+
+/-- `accept_uni`, once `poll_accept_recv` has run: the model pops the entry pushed last; the judge
+    surfaces the stream the implementation surfaced, if that is one of the buffered ones -/
+def auTry (st : St) (task : String) : St :=
+  let st := pollRecv st
+  let pick : Option (WtUni × List WtUni × Option (List Nat) × Option Nat) :=
+    match st.choices with
+    | some (c :: cs) =>
+      match st.wtStack.find? (·.stream == c) with
+      | some e => some (e, st.wtStack.filter (·.stream != c), some cs, none)
+      | none => (popLast st.wtStack).map (fun (e, r) => (e, r, some cs, some c))
+    | ch => (popLast st.wtStack).map (fun (e, r) => (e, r, ch, none))
+  match pick with
+  | none =>
+    -- nothing buffered: the call waits; a choice the implementation made here is answered below,
+    -- when (if ever) the judge has a stream to surface
+    block st task .au
+  | some (e, rest, ch, bad) =>
+    let u := e.stream
+    let st := updPeer { st with wtStack := rest, choices := ch } u (fun p => { p with rd := some e.rd, evs := e.script })
+    let st := newSend st u true
+    let st := { st with tasks := st.tasks ++ [s!"w{u}"] }
+    let sp : String :=
+      match bad with
+      | some c => s!"conn.au=!stream-{c}-is-not-a-buffered-WebTransport-stream"
+      | none =>
+        match (getPeer st u).bind (fun p => parseHeader p.bytes) with
+        | some (ty, sess, _) =>
+          if ty == 0x54 then s!"conn.au=uni:session={sess}:stream={u}"
+          else s!"conn.au=!stream-{u}-has-type-{ty}"
+        | none => s!"conn.au=!stream-{u}-has-no-complete-header"
+    st.log s!"conn.au=uni:session={e.session}:stream={u}" sp
+
+/-- second phase of `accept_bi`: the first frame of the stream it took from the transport -/
+def abHold (st : St) (task : String) (b : Nat) : St :=
+  match getPeer st b with
+  | none => st
+  | some p =>
+    match H3.FS.pollNext H3.FS.frameDec {} p.evs with
+    | (.frame (.webTransport x), s, rest) =>
+      let st := updPeer st b (fun p => { p with rd := some (Rd.ofFS s), evs := rest })
+      let st := updSend st b (fun s => { s with shown := true })
+      let st := { st with tasks := st.tasks ++ [s!"w{b}"] }
+      let sp : String :=
+        match parseHeader p.bytes with
+        | some (ty, sess, _) =>
+          if ty == 0x41 then s!"conn.ab=bidi:session={sess}:stream={b}" else s!"conn.ab=!stream-{b}-has-type-{ty}"
+        | none => s!"conn.ab=!stream-{b}-has-no-complete-header"
+      st.log s!"conn.ab=bidi:session={x}:stream={b}" sp
+    | (.pending, _, _) => block st task (.ab (some b))
+    -- the stream ended before its first byte: `Ok(None)`
+    | (.none, _, _) => st.logAlt "conn.ab=none" ["conn.ab=none", "conn.ab=err:*"]
+    -- FIN inside the header: `FrameStreamError::UnexpectedEnd`, a connection error H3_FRAME_ERROR
+    | (.errEnd, _, _) => (st.raise "H3_FRAME_ERROR" 262).log "conn.ab=err:conn:local:H3_FRAME_ERROR" "conn.ab=err:*"
+    -- RESET inside the header
+    | (.errQuic c, _, _) => st.logAlt s!"conn.ab=err:rterm:{c}" ["conn.ab=err:*", "conn.ab=none"]
+    -- requests and malformed frames that come in through `accept_bi` are C03's / C02's subject
+    | _ => st
 
 /-- let a job make progress: it completes (one trace entry) or blocks its task again -/
 def runJob (st : St) (task : String) (job : Job) : St :=
   match job with
   | .forever op => block st task (.forever op)
+  | .au =>
+    if let some e := st.connErr then st.log s!"conn.au=err:{e}" "conn.au=err:*" else
+    match st.localErr with
+    | some (n, c) =>
+      -- the datagram error is C18's (code demanded); for the others C19 only says "an error"
+      if c == 51 then (st.closeWith c).log1 s!"conn.au=err:local:{n}"
+      else (st.closeWith c).log s!"conn.au=err:local:{n}" "conn.au=err:*"
+    | none => if !st.wtEnabled then block (pollRecv st) task (.forever "au") else auTry st task
+  | .ab hold =>
+    match hold with
+    | some b => abHold st task b
+    | none =>
+      if let some e := st.connErr then st.log s!"conn.ab=err:conn:{e}" "conn.ab=err:*" else
+      match st.localErr with
+      | some (n, c) =>
+        if c == 51 then (st.closeWith c).log1 s!"conn.ab=err:conn:local:{n}"
+        else (st.closeWith c).log s!"conn.ab=err:conn:local:{n}" "conn.ab=err:*"
+      | none =>
+        let st := pollRecv st
+        match st.pendingBidi with
+        | b :: r => abHold { st with pendingBidi := r } task b
+        | [] => block st task (.ab none)
   | .dgr =>
     -- the transport reports its failure before it looks at the queue; the spec has no opinion on which error
     if let some e := st.connErr then st.log s!"{task}.dgr=err:conn:{e}" s!"{task}.dgr=err:*" else
@@ -197,7 +330,7 @@ def runJob (st : St) (task : String) (job : Job) : St :=
       let s := match Varint.rfcDecode d with
         | none => "err:conn:local:H3_DATAGRAM_ERROR"
         | some (q, p) => if q * 4 > 2^62 - 1 then "err:conn:local:H3_DATAGRAM_ERROR" else s!"dg:{q * 4}:{toHex p}"
-      ({ st with dgErr := st.dgErr || m.2 }).log s!"{task}.dgr={m.1}" s!"{task}.dgr={s}"
+      (if m.2 then st.raise "H3_DATAGRAM_ERROR" 51 else st).log s!"{task}.dgr={m.1}" s!"{task}.dgr={s}"
   | .wbuf op sid w okText =>
     match getSend st sid with
     | none => st
@@ -293,10 +426,6 @@ def parseSizes (arg : String) : List Nat × Option Nat :=
 def handSpec (st : St) (sid : Nat) (bs : List Nat) : St :=
   updSend st sid (fun s => if s.stopped.isSome then s else ({ s with sQueue := s.sQueue ++ bs }).pipe)
 
-def newSend (st : St) (id : Nat) (shown : Bool) : St :=
-  if (getSend st id).isSome then st
-  else { st with sends := st.sends ++ [{ id := id, credit := st.wc, sCredit := st.wc, shown := shown }] }
-
 /-- a task starts a command -/
 def exec (st : St) (task cmd : String) : St :=
   let parts := cmd.splitOn ":"
@@ -305,10 +434,12 @@ def exec (st : St) (task cmd : String) : St :=
   if task == "conn" then
     match op with
     | "WT" =>
+      let st := pollRecv st
       match st.lastBidi with
       | some c => ({ st with connect := some c, accepted := true }).log1
           s!"conn.WT=ok:connect={c}:session={acceptedSessionId c}"
-      | none => st
+      -- no request to accept: `accept()` waits (the generators always deliver the CONNECT request first)
+      | none => block st task (.forever "WT")
     | "sid" =>
       match st.connect with
       | some c => st.log1 s!"conn.sid={acceptedSessionId c}"
@@ -329,39 +460,10 @@ def exec (st : St) (task cmd : String) : St :=
       match H3.WriteBuf.fromUniHeader (.webTransportUni sess) with
       | some w => runJob st task (.wbuf "ou" id w s!"ok:{id}")
       | none => st.log1 "conn.ou=panic"
-    | "ab" =>
-      if let some e := st.connErr then st.log s!"conn.ab=err:conn:{e}" "conn.ab=err:*" else
-      if st.dgErr then ({ st with closed := true }).log1 "conn.ab=err:conn:local:H3_DATAGRAM_ERROR" else
-      match st.pendingBidi with
-      | b :: r =>
-        match getPeer st b with
-        | none => st
-        | some p =>
-          match H3.FS.pollNext H3.FS.frameDec {} p.evs, parseHeader p.bytes with
-          | (.frame (.webTransport x), s, rest), some (_, sp, _) =>
-            let st := updPeer { st with pendingBidi := r } b (fun p => { p with rd := some (Rd.ofFS s), evs := rest })
-            let st := updSend st b (fun s => { s with shown := true })
-            let st := { st with tasks := st.tasks ++ [s!"w{b}"] }
-            st.log s!"conn.ab=bidi:session={x}:stream={b}" s!"conn.ab=bidi:session={sp}:stream={b}"
-          | _, _ => st
-      | [] => st
-    | "au" =>
-      if let some e := st.connErr then st.log s!"conn.au=err:{e}" "conn.au=err:*" else
-      if st.dgErr then ({ st with closed := true }).log1 "conn.au=err:local:H3_DATAGRAM_ERROR" else
-      if !st.wtEnabled then block st task (.forever "au") else
-      match st.pendingUni with
-      | u :: r =>
-        match getPeer st u with
-        | none => st
-        | some p =>
-          match H3.UniAccept.resolve (p.evs.length + 1) {} p.evs, parseHeader p.bytes with
-          | .resolved s rest, some (_, sp, _) =>
-            let st := updPeer { st with pendingUni := r } u (fun p => { p with rd := some (Rd.ofUni s), evs := uniScript s rest })
-            let st := newSend st u true
-            let st := { st with tasks := st.tasks ++ [s!"w{u}"] }
-            st.log s!"conn.au=uni:session={s.id.getD 0}:stream={u}" s!"conn.au=uni:session={sp}:stream={u}"
-          | _, _ => st
-      | [] => st
+    | "ab" => runJob st task (.ab none)
+    | "au" => runJob st task .au
+    -- `accept()` (also inside `conn.WT`) runs `poll_control`, hence `poll_accept_recv`
+    | "A" => pollRecv st
     | "dgs" =>
       if st.connErr.isSome then st.log1 "conn.dgs=err" else
       match st.connect, parseHex arg with
@@ -429,6 +531,9 @@ def kick (st : St) : St :=
       drainQueue (st.queue.length + 1) st task) st
 
 def addEv (st : St) (sid : Nat) (e : Ev) : St :=
+  let live := ((getPeer st sid).map (fun p => p.ended.isNone)).getD false
+  let st := if live then { st with wtStack := st.wtStack.map (fun w =>
+                if w.stream == sid then { w with script := w.script ++ [e] } else w) } else st
   updPeer st sid (fun p =>
     match p.ended, e with
     | some _, _ => p
@@ -449,7 +554,7 @@ def step (st : St) (op : String) : St :=
       if sid % 4 == 0 then
         let st := newSend st sid false
         (if st.accepted then { st with pendingBidi := st.pendingBidi ++ [sid] } else { st with lastBidi := some sid })
-      else if sid % 4 == 2 && sid != 2 then { st with pendingUni := st.pendingUni ++ [sid] }
+      else if sid % 4 == 2 && sid != 2 then { st with uniPending := st.uniPending ++ [sid] }
       else st
     | none => st
   | 's' :: rest =>
@@ -512,25 +617,77 @@ def cfgNat (cfg key : String) : Option Nat :=
     | [k, v] => if k == key then v.toNat? else none
     | _ => none)).head?
 
+/-- `*` matches any run of characters (as `vlib._tok_match`) -/
+def globMatch : List Char → List Char → Bool
+  | [], [] => true
+  | [], _ :: _ => false
+  | '*' :: p, [] => globMatch p []
+  | '*' :: p, d :: t => globMatch p (d :: t) || globMatch ('*' :: p) t
+  | _ :: _, [] => false
+  | c :: p, d :: t => c == d && globMatch p t
+termination_by p t => p.length + t.length
+
+/-- the observed tokens against the specification's tokens: `ok`, or the first position that is
+    not acceptable together with what was expected there -/
+def judge : Nat → List (List String) → List String → String
+  | _, [], [] => "ok"
+  | i, [], t :: _ => s!"BAD@{i}:nothing-more-expected:got:{t}"
+  | i, alts :: rest, [] =>
+    if alts.contains "?absent" then judge i rest [] else s!"BAD@{i}:missing:{"|".intercalate alts}"
+  | i, alts :: rest, t :: ts =>
+    if alts.any (fun a => a != "?absent" && globMatch a.toList t.toList) then judge (i + 1) rest ts
+    else if alts.contains "?absent" then judge i rest (t :: ts)
+    else s!"BAD@{i}:expected:{"|".intercalate alts}"
+
+structure Result where
+  model : List String
+  spec : List (List String)
+
+def run (cfg : String) (ops : List String) (choices : Option (List Nat)) : Result :=
+  let enabled := (cfg.splitOn ",").contains "wt=1"
+  let st := ops.foldl step { wtEnabled := enabled, wc := cfgNat cfg "wc", choices := choices }
+  let pend := (sortBy (fun (a b : String × Job) => decide (a.1 < b.1)) st.blocked).map
+    (fun (t, j) => s!"{t}.{j.op}=pending")
+  let shown := sortBy (fun (a b : Send) => decide (a.id < b.id)) (st.sends.filter (·.shown))
+  let flags (s : Send) : String :=
+    (if s.fin then ",fin" else "") ++
+    (match s.rst with | some c => s!",rst={c}" | none => "") ++
+    (match s.stop with | some c => s!",stop={c}" | none => "") ++
+    (if st.blocked.any (fun (_, j) => match j with | .wbuf "sd" sid .. => sid == s.id | _ => false) then ",writing" else "")
+  let txM := shown.map (fun s => s!"{s.id}:tx={toHex s.wire}{flags s}")
+  let txS := shown.map (fun s => s!"{s.id}:tx={toHex s.sWire}{flags s}")
+  let closedM := match st.closed with | some c => [s!"closed=[{c}]"] | none => []
+  -- C18 demands the close with H3_DATAGRAM_ERROR; for other errors C19 has no opinion on the close
+  let closedS : List (List String) :=
+    match st.closed with
+    | some c => if c == 51 then [["closed=[51]"]] else [["closed=[*]", "?absent"]]
+    | none => []
+  let dg (l : List (List Nat)) : List String :=
+    if l.isEmpty then [] else ["dgrams=[" ++ ",".intercalate (l.map toHex) ++ "]"]
+  { model := st.out ++ pend ++ txM ++ closedM ++ dg st.dgTx,
+    spec := st.spec ++ (pend ++ txS).map (fun t => [t]) ++ closedS ++ (dg st.dgTxSpec).map (fun t => [t]) }
+
+/-- `conn.au=uni:session=<s>:stream=<u>` ↦ `u` -/
+def choiceOf (tok : String) : Option Nat :=
+  if tok.startsWith "conn.au=uni:" then
+    match tok.splitOn ":stream=" with
+    | [_, u] => u.toNat?
+    | _ => none
+  else none
+
+def untagTok (t : String) : String := (t.splitOn "#D-").headD t
+
 def handle : List String → String
   | "wt" :: _ :: cfg :: ops =>
-    let enabled := (cfg.splitOn ",").contains "wt=1"
-    let st := ops.foldl step { wtEnabled := enabled, wc := cfgNat cfg "wc" }
-    let pend := (sortBy (fun (a b : String × Job) => decide (a.1 < b.1)) st.blocked).map
-      (fun (t, j) => s!"{t}.{j.op}=pending")
-    let shown := sortBy (fun (a b : Send) => decide (a.id < b.id)) (st.sends.filter (·.shown))
-    let flags (s : Send) : String :=
-      (if s.fin then ",fin" else "") ++
-      (match s.rst with | some c => s!",rst={c}" | none => "") ++
-      (match s.stop with | some c => s!",stop={c}" | none => "") ++
-      (if st.blocked.any (fun (_, j) => match j with | .wbuf "sd" sid .. => sid == s.id | _ => false) then ",writing" else "")
-    let txM := shown.map (fun s => s!"{s.id}:tx={toHex s.wire}{flags s}")
-    let txS := shown.map (fun s => s!"{s.id}:tx={toHex s.sWire}{flags s}")
-    let closed := if st.closed then ["closed=[51]"] else []
-    let dg (l : List (List Nat)) : List String :=
-      if l.isEmpty then [] else ["dgrams=[" ++ ",".intercalate (l.map toHex) ++ "]"]
-    " ".intercalate (st.out ++ pend ++ txM ++ closed ++ dg st.dgTx) ++ " ## " ++
-      " ".intercalate (st.spec ++ pend ++ txS ++ closed ++ dg st.dgTxSpec)
+    let r := run cfg ops none
+    -- the verdict of the specification on the model's own answers, the model's answers, and the
+    -- demand on the implementation: its answers, judged by engine `wtj`, are `ok`
+    " ".intercalate (judge 0 r.spec (r.model.map untagTok) :: r.model) ++ " ## ok **"
+  | "wtj" :: _ :: cfg :: rest =>
+    let ops := rest.takeWhile (· != "@@")
+    let obs := (rest.dropWhile (· != "@@")).drop 1
+    let r := run cfg ops (some (obs.filterMap choiceOf))
+    judge 0 r.spec obs
   | _ => "bad-op"
 
 end H3.Drv.C19
